@@ -25,6 +25,7 @@ import (
 	"context"
 	"errors"
 	"fmt"
+	"os"
 	"sort"
 	"strings"
 	"sync"
@@ -739,7 +740,10 @@ func TestVerifC06RetryRandom(t *testing.T) {
 	agg := map[string]int64{}
 	defer c06Flush(m, agg)
 	r := m.Rand("retry-random")
-	n := vk.N(4, 120)
+	n := vk.N(8, 300)
+	if os.Getenv("C06_LIGHT") != "" { // the -race repetition of this test
+		n = vk.N(4, 40)
+	}
 	for idx := 1; idx <= n; idx++ {
 		sc := c06RandomScenario(r, idx)
 		if !m.Only(idx) {
